@@ -67,6 +67,15 @@ pub fn concretise(tasks: &Tasks, batch: &[OpT]) -> (Vec<Operation>, Tasks) {
     (out, t)
 }
 
+/// Operation list for messages (elided in the middle when long).
+fn ops_str(o: &[Operation]) -> String {
+    if o.len() <= 12 {
+        o.iter().map(op_str).collect::<Vec<_>>().join("; ")
+    } else {
+        format!("{}; ... {} more ...; {}", o[..4].iter().map(op_str).collect::<Vec<_>>().join("; "), o.len() - 6, o[o.len() - 2..].iter().map(op_str).collect::<Vec<_>>().join("; "))
+    }
+}
+
 pub fn commit(store: &mut Store, ops_: Vec<Operation>, ctl: std::sync::Arc<Ctl>) -> Result<(), String> {
     crate::util::block_on(with_replica(store, ctl, async |r| {
         r.commit_operations(ops_).await.map_err(|e| format!("{e:#}"))
@@ -160,6 +169,23 @@ fn obs_eq_modulo_ws_order(a: &Obs, b: &Obs) -> bool {
 
 /// Check one (prior, batch) case. Returns (non-trivial, storage calls, fault runs).
 pub fn check_case(p: &Prior, batch: &[OpT], faults: bool) -> Result<(bool, usize, usize), String> {
+    check_case_with(p, batch, &|_, _| faults)
+}
+
+/// A batch of `n` operations: create T1 (when absent), `n - 2` alternating updates of T1.p, and a
+/// final update of T2 (valid or not, depending on the prior).
+pub fn large_batch(n: usize) -> Vec<OpT> {
+    let mut v = vec![OpT::Create(1)];
+    for i in 0..n.saturating_sub(2) {
+        v.push(OpT::Upd(1, "p".into(), if i % 2 == 0 { Some("a".into()) } else { None }));
+    }
+    v.push(OpT::Upd(2, "p".into(), Some("a".into())));
+    v
+}
+
+/// [`check_case`] with the injected error restricted to the storage calls (index, label) that
+/// `fault_at` selects.
+pub fn check_case_with(p: &Prior, batch: &[OpT], fault_at: &dyn Fn(usize, &str) -> bool) -> Result<(bool, usize, usize), String> {
     let (ops_, want_tasks) = concretise(&p.obs.tasks, batch);
     // (a) + (c) batch on the real replica, recording the storage calls
     let mut st = p.store.clone();
@@ -171,7 +197,7 @@ pub fn check_case(p: &Prior, batch: &[OpT], faults: bool) -> Result<(bool, usize
     if after.tasks != want_tasks {
         return Err(format!(
             "batch-vs-model: committing [{}] on {} gives {} but applying the operations one at a time under the documented rules gives {}",
-            ops_.iter().map(op_str).collect::<Vec<_>>().join("; "),
+            ops_str(&ops_),
             tasks_str(&p.obs.tasks),
             tasks_str(&after.tasks),
             tasks_str(&want_tasks)
@@ -182,7 +208,7 @@ pub fn check_case(p: &Prior, batch: &[OpT], faults: bool) -> Result<(bool, usize
     if after.unsynced != want_unsynced {
         return Err(format!(
             "oplog: after committing [{}] the unsynchronized list is [{}] but should be the old list followed by the batch [{}]",
-            ops_.iter().map(op_str).collect::<Vec<_>>().join("; "),
+            ops_str(&ops_),
             after.unsynced.iter().map(op_str).collect::<Vec<_>>().join("; "),
             want_unsynced.iter().map(op_str).collect::<Vec<_>>().join("; ")
         ));
@@ -214,7 +240,7 @@ pub fn check_case(p: &Prior, batch: &[OpT], faults: bool) -> Result<(bool, usize
         if single.tasks != after.tasks || single.unsynced != after.unsynced {
             return Err(format!(
                 "batch-vs-single: committing [{}] as one batch gives {} but one at a time gives {}",
-                ops_.iter().map(op_str).collect::<Vec<_>>().join("; "),
+                ops_str(&ops_),
                 tasks_str(&after.tasks),
                 tasks_str(&single.tasks)
             ));
@@ -222,8 +248,11 @@ pub fn check_case(p: &Prior, batch: &[OpT], faults: bool) -> Result<(bool, usize
     }
     // (e) atomicity: an error at any storage call leaves everything unchanged
     let mut fault_runs = 0;
-    if faults {
+    {
         for k in 0..calls.len() {
+            if !fault_at(k, &calls[k]) {
+                continue;
+            }
             let mut st2 = p.store.clone();
             let ctl = Ctl::new();
             ctl.arm(k, StorageFault::Error);
@@ -240,7 +269,7 @@ pub fn check_case(p: &Prior, batch: &[OpT], faults: bool) -> Result<(bool, usize
             if !obs_eq_modulo_ws_order(&o2, &p.obs) {
                 return Err(format!(
                     "not-atomic: commit of [{}] failed at storage call {k} ({}) but the replica changed from {} to {}",
-                    ops_.iter().map(op_str).collect::<Vec<_>>().join("; "),
+                    ops_str(&ops_),
                     calls[k],
                     p.obs.canon(),
                     o2.canon()
@@ -323,7 +352,7 @@ fn run_kind(rep: &Report, kind: Kind, max_len: usize, small_priors: bool, faults
 pub fn run(opts: &Opts) -> i32 {
     let rep = Report::new("C05", "model_checking", opts);
     rep.set("exhaustive", true);
-    rep.set("rule", "case = prior replica state (T1,T2 each absent / empty / with a property, unsynced or synced) x every batch over {Create, Update p=a, Update p=absent, Delete} x {T1,T2} + status=pending + UndoPoint up to the length bound, valid or not; each executed through the real Replica::commit_operations on the in-memory and the SQLite storage; oracles: reference model one-at-a-time, batch-vs-single differential, operation log = old log + batch, tasks = base + pending, and for every storage call index an injected error must leave the whole observable state unchanged; non-trivial = batches containing an operation that is invalid where it is applied");
+    rep.set("rule", "case = prior replica state (T1,T2 each absent / empty / with a property, unsynced or synced) x every batch over {Create, Update p=a, Update p=absent, Delete} x {T1,T2} + status=pending + UndoPoint up to the length bound, valid or not; each executed through the real Replica::commit_operations on the in-memory and the SQLite storage; oracles: reference model one-at-a-time, batch-vs-single differential, operation log = old log + batch, tasks = base + pending, and for every storage call index an injected error must leave the whole observable state unchanged; plus batches of 1200 (thorough 5000) operations with an injected error at every storage call (SQLite: every transaction boundary + every 97th call); non-trivial = batches containing an operation that is invalid where it is applied");
     let q = opts.tier == Tier::Quick;
     run_kind(&rep, Kind::Mem, if q { 4 } else { 5 }, false, if q { 3 } else { 4 });
     run_kind(&rep, Kind::Sqlite, if q { 2 } else { 3 }, q, 2);
@@ -331,11 +360,53 @@ pub fn run(opts: &Opts) -> i32 {
         // length-3 batches on a few SQLite priors
         run_kind(&rep, Kind::Sqlite, 3, true, 0);
     }
+    // very large batches: still one atomic commit whatever the size (in memory: an error at every
+    // storage call; SQLite: at every transaction begin/commit call and every 97th other call)
+    let sizes: &[usize] = if q { &[1200] } else { &[1200, 5000] };
+    for &n in sizes {
+        for kind in [Kind::Mem, Kind::Sqlite] {
+            let ps = priors(kind, true);
+            let batch = large_batch(n);
+            let results: Vec<_> = ps
+                .par_iter()
+                .enumerate()
+                .map(|(i, p)| {
+                    let filt = move |k: usize, l: &str| match kind {
+                        Kind::Mem => n <= 1200 || k % 7 == 0 || l == "txn" || l == "commit",
+                        _ => k % 97 == 0 || l == "txn" || l == "commit",
+                    };
+                    (i, check_case_with(p, &batch, &filt))
+                })
+                .collect();
+            let mut fr_total = 0u64;
+            for (i, r) in results {
+                match r {
+                    Ok((_, _, fr)) => fr_total += fr as u64,
+                    Err(e) => rep.violation(Violation::new(
+                        format!("{}:{kind:?}:large", e.split(':').next().unwrap_or("")),
+                        e.clone(),
+                        json!({"kind": "c05-large", "storage": kind, "prior_index": i, "n": n, "observed": e}),
+                    )),
+                }
+            }
+            rep.add("fault_injection_runs", fr_total);
+            rep.add("evaluations", ps.len() as u64);
+            rep.set(&format!("large_batch_{n}_{kind:?}"), json!({"prior_states": ps.len(), "operations": n, "fault_runs": fr_total}));
+            println!("[C05] {kind:?}: batch of {n} operations x {} priors, {fr_total} fault runs ({:.1}s)", ps.len(), rep.elapsed());
+        }
+    }
     rep.finish()
 }
 
 pub fn replay(case: &serde_json::Value) -> Result<(), String> {
     let kind: Kind = serde_json::from_value(case["storage"].clone()).map_err(|e| e.to_string())?;
+    if case["kind"] == "c05-large" {
+        let ps = priors(kind, true);
+        let i = case["prior_index"].as_u64().unwrap_or(0) as usize;
+        let n = case["n"].as_u64().unwrap_or(1200) as usize;
+        println!("storage {kind:?}; prior state: {}; batch of {n} operations, error at every transaction boundary and every 7th call", ps[i].name);
+        return check_case_with(&ps[i], &large_batch(n), &|k, l| k % 7 == 0 || l == "txn" || l == "commit").map(|_| ());
+    }
     let small = case["small_priors"].as_bool().unwrap_or(false);
     let i = case["prior_index"].as_u64().unwrap_or(0) as usize;
     let batch: Vec<OpT> = serde_json::from_value(case["batch"].clone()).map_err(|e| e.to_string())?;
